@@ -89,7 +89,7 @@ class PathCtx(object):
 
 class Exec(object):
     def __init__(self, world, types=None, abstract=None, hash_oracle=None, max_loop=8, branch_timeout_ms=4000,
-                 int_bound=8, overrides=None):
+                 int_bound=8, overrides=None, abstract_prefixes=()):
         self.world = world
         self.types = dict(types or {})           # generic parameter -> (module, owner)
         self.abstract = dict(abstract or {})      # (owner|None, fn name) -> python callable(exec, args, line)
@@ -98,6 +98,7 @@ class Exec(object):
         self.int_bound = int_bound
         self.branch_timeout_ms = branch_timeout_ms
         self.overrides = dict(overrides or {})    # (owner, CONST) -> value   (abstract layout constants)
+        self.abstract_prefixes = tuple(abstract_prefixes)    # free functions NOT in the loaded world whose names start so are uninterpreted
         self.base = []            # input constraints (ranges, preconditions)
         self.axioms = []          # instance axioms of the uninterpreted functions (valid on every path)
         self._axiom_ids = set()
@@ -1515,6 +1516,8 @@ class Exec(object):
                         r.mod = m
                         return r
                     return SStruct(name, dict((str(i), a) for i, a in enumerate(args)), m)
+            if any(name.startswith(p_) for p_ in self.abstract_prefixes):
+                return self.uninterpreted_call(name, args, line)
             self.unsupported(line, "call of unknown function %s" % name)
         ty = segs[-2]
         if ty == "Felt":
@@ -1563,6 +1566,19 @@ class Exec(object):
             if fn is not None:
                 return self.call_fn(fn, fmod, args, line)
         self.unsupported(line, "call of unknown function %s" % "::".join(segs))
+
+    def uninterpreted_call(self, name, args, line):
+        """function outside the loaded world treated as an uninterpreted function of its felt arguments (recorded in the events)"""
+        flat = [a for a in args if is_felt(a)]
+        if len(flat) == len(args) and 1 <= len(flat) <= 4:
+            t = self.uf("U_" + name, len(flat))(*[zi(a) for a in flat])
+            self.axiom(z3.And(t >= 0, t < P))
+            r = SF(t)
+        else:
+            k = sum(1 for e in self.events if e[0] == "uninterpreted:" + name) + 1
+            r = self.sym_felt("%s#%d" % (name, k))
+        self.events.append(("uninterpreted:" + name, list(args), r, self.file, line))
+        return r
 
     def builtin_hash(self, name, args, line):
         if name == "poseidon_hash":
